@@ -5,15 +5,18 @@ The definition is `Gms.Rel.eval` (M1 + M2, Gms/Model/Sql.lean + Rel.lean). The e
 with it by correspondence (harness/cmd/c02 ↔ Drivers/C02.lean). The theorems below make the
 definition a credible oracle (they are the SQL laws the property statement names, proved for all
 databases, rows and environments), tie the scalar operators to the engine's own operators through
-regenerated truth tables (`facts_match`), and state the known-defect regions (`finding_*`,
-`impl_eq_spec_partial`).
+regenerated truth tables (`facts_match`), model the code path of correlated `IN` subqueries
+(`plan.InSubquery.Eval`: `insub_probe_correct`, `insub_scan_*`) and tie it to the compiled engine by
+a regenerated table of per-row values in 72 scan orders (`facts_corr_rows_independent`), and state
+the known-defect regions (`finding_*`, `impl_eq_spec_partial`).
 -/
 import Gms.Lemmas.Rel
+import Gms.Lemmas.InSubProbe
 import Gms.Model.SqlQuirks
 import Gms.Generated.C02
 
 namespace Gms.C02
-open Gms.Sql Gms.Rel Gms.Quirks
+open Gms.Sql Gms.Rel Gms.Quirks Gms.InSubProbe
 
 /-! ## Regenerated facts: the engine's scalar operators on {NULL,0,1,2} agree with M1 -/
 
@@ -271,6 +274,143 @@ theorem eval_orderBy_perm (db : Db) (env : Env) (ks : List Expr) (d : List Bool)
 theorem eval_limit_slice (db : Db) (env : Env) (n off : Nat) (q : Query) :
     evalQ db env (.limit n off q) = ((evalQ db env q).drop off).take n := by
   simp [evalQ, limitRows]
+
+/-! ## Correlated subqueries: one expression object, many outer rows
+
+`filter` and `project` evaluate their expression once per row with that row pushed on the
+environment, so the value on a row is a function of that row alone. The engine evaluates ONE
+`plan.InSubquery` / `plan.Subquery` object on the successive rows of the scan; the theorems below
+say that the Impl model of that object computes the definition on every call
+(`insub_probe_correct`), hence that a scan is a map (`insub_scan_eq_spec`, `insub_scan_append`,
+`insub_scan_perm`), and — on a table regenerated by running the engine over 24 outer rows in 72
+scan orders — that the compiled code carries nothing from one row to the next
+(`facts_corr_rows_independent`). -/
+
+/-- `InSubquery.Eval` (hash probe + probe of the NULL key) is `IN` of the SQL definition. -/
+theorem insub_probe_correct (x : Value) (ws : List Value) : probe x ws = (inTri x ws).toValue :=
+  probe_eq_inTri x ws
+
+/-- … so `x NOT IN (… NULL …)` is never TRUE on that code path either, whatever was evaluated before. -/
+theorem insub_probe_notIn_null (x : Value) (ws : List Value) (h : Value.null ∈ ws) :
+    notInTruth x ws ≠ .t := by
+  simp only [notInTruth, probe_eq_inTri, truth_toValue]
+  exact notIn_null_never_true x ws h
+
+/-- A scan by one `InSubquery` object returns on every row the definition's value of that row. -/
+theorem insub_scan_eq_spec (calls : List (Value × List Value)) :
+    probeRows calls = calls.map (fun c => (inTri c.1 c.2).toValue) := by
+  simp [probeRows, probe_eq_inTri]
+
+/-- Results of successive calls are independent: the values on the rows of a scan do not depend on
+the rows scanned before them … -/
+theorem insub_scan_append (a b : List (Value × List Value)) :
+    probeRows (a ++ b) = probeRows a ++ probeRows b := by
+  simp [probeRows]
+
+/-- … nor on the scan order. -/
+theorem insub_scan_perm (a b : List (Value × List Value)) (h : a.Perm b) :
+    (probeRows a).Perm (probeRows b) := h.map _
+
+/-- The same for the definition itself: the value of a select item / the decision of a WHERE on a
+row does not depend on the other rows of the input (here: of a base table split in two). -/
+theorem eval_rows_independent (db : Db) (env : Env) (p : Expr) (es : List Expr) (l₁ l₂ : List Row) (n : Nat)
+    (t : Table) (ht : db[n]? = some t) (hrows : t.rows = l₁ ++ l₂) :
+    evalQ db env (.filter p (.table n)) =
+        l₁.filter (fun r => (evalE db (r :: env) p).truth = .t) ++ l₂.filter (fun r => (evalE db (r :: env) p).truth = .t)
+    ∧ evalQ db env (.project es (.table n)) =
+        l₁.map (fun r => evalEs db (r :: env) es) ++ l₂.map (fun r => evalEs db (r :: env) es) := by
+  simp [evalQ, ht, hrows]
+
+/-- The excluded class is really excluded by the model: a node that keeps "the set has a NULL" from
+its first miss returns different values than `probeRows` … -/
+theorem memo_scan_differs :
+    ∃ calls, probeMemoRows none calls ≠ probeRows calls :=
+  ⟨[(.int 1, [.int 5]), (.int 2, [.null, .int 7])], by decide⟩
+
+/-- … and makes `x NOT IN (… NULL …)` TRUE on the second row. -/
+theorem memo_scan_notIn_null_true :
+    ∃ c₁ c₂ : Value × List Value, Value.null ∈ c₂.2
+      ∧ ((probeMemoRows none [c₁, c₂]).getD 1 .null).truth = .f
+      ∧ notInTruth c₂.1 c₂.2 ≠ .t :=
+  ⟨(.int 1, [.int 5]), (.int 2, [.null, .int 7]), by decide, by decide, by decide⟩
+
+/-! ### Regenerated table: the engine on 24 outer rows in 72 scan orders -/
+
+section CorrFacts
+open Gms.Generated.C02
+
+def toOpt : Value → Option Int
+  | .int i => some i
+  | _ => none
+
+/-- Inner table `u(a, b)`: group `b` holds the members of `corrSets[b]`. -/
+def fU : Table :=
+  ⟨2, (corrSets.zipIdx).flatMap (fun sb => sb.1.map (fun a => [optV a, Value.int sb.2]))⟩
+
+/-- Outer row `(id, a, b)`: `a = corrX[id / 8]`, `b = id % 8`. -/
+def fRow (id : Nat) : Row := [.int id, optV ((corrX[id / corrSets.length]?).getD none), .int (id % corrSets.length : Nat)]
+
+def fDb : Db := [⟨3, []⟩, fU]
+
+/-- `SELECT u.a FROM u WHERE u.b = t.b` -/
+def fSub : Query := .project [.col 0 0] (.filter (.cmp .eq (.col 0 1) (.col 1 2)) (.table 1))
+/-- `t.a IN (SELECT u.a FROM u WHERE u.b = t.b)` -/
+def fIn : Expr := .inSub (.col 0 1) fSub
+/-- `EXISTS (SELECT u.a FROM u WHERE u.b = t.b AND u.a = t.a)` -/
+def fExists : Expr :=
+  .exists (.project [.col 0 0] (.filter (.and (.cmp .eq (.col 0 1) (.col 1 2)) (.cmp .eq (.col 0 0) (.col 1 1))) (.table 1)))
+/-- `(SELECT MAX(u.a) FROM u WHERE u.b = t.b)` -/
+def fMax : Expr := .scalar (.group [] [.max] [.col 0 0] (.filter (.cmp .eq (.col 0 1) (.col 1 2)) (.table 1)))
+
+/-- What the SQL definition gives to outer row `id` ALONE (only that row on the environment). -/
+def specRow (id : Nat) : Nat × Option Int × Option Int × Option Int :=
+  (id, toOpt (evalE fDb [fRow id] fIn), toOpt (evalE fDb [fRow id] fExists), toOpt (evalE fDb [fRow id] fMax))
+
+def specKeep (id : Nat) : Bool := (evalE fDb [fRow id] (.not fIn)).truth = .t
+
+/-- The definition's table over the 24 rows, computed once. -/
+def specTable : List (Nat × Option Int × Option Int × Option Int) := (List.range 24).map specRow
+def keepTable : List Bool := (List.range 24).map specKeep
+
+def runOk (run : List (Nat × Option Int × Option Int × Option Int) × List Nat) : Bool :=
+  let ids := run.1.map (·.1)
+  decide (run.1 = ids.map (fun id => (specTable[id]?).getD (id, none, none, none)))
+    && decide (run.2 = ids.filter (fun id => (keepTable[id]?).getD false))
+    && decide (ids.length = 24) && (List.range 24).all (fun i => ids.contains i)
+
+/-- **Rows are independent in the compiled engine.** In each of the 72 scan orders (every rotation
+of three strides: each of the 24 rows is evaluated first in some order) every row carries, for
+`a IN (correlated)`, `EXISTS (correlated)` and `(SELECT MAX … correlated)`, exactly the value the SQL
+definition gives to that row alone, and `WHERE a NOT IN (correlated)` keeps exactly the rows whose
+own `NOT IN` is TRUE, in scan order; each order is a permutation of the 24 rows, and the domain is
+the one documented (3 probe values × the 8 member sets over {NULL,0,1}). -/
+theorem facts_corr_rows_independent :
+    corrRuns.all runOk = true
+    ∧ corrRuns.length = 72
+    ∧ corrX = [none, some 0, some 1]
+    ∧ corrSets = [[], [none], [some 0], [some 1], [none, some 0], [none, some 1], [some 0, some 1], [none, some 0, some 1]]
+    ∧ (List.range 24).all (fun i => (corrRuns.map (fun run => (run.1.map (·.1)).head?)).contains (some i)) = true := by
+  decide
+
+/-- The `IN` column of the table is also what the Impl model `probe` returns (as it must, by
+`insub_probe_correct`): left value and member set of row `id` read off the domain. -/
+theorem facts_corr_probe :
+    corrRuns.all (fun run =>
+      decide (run.1.map (fun r => r.2.1) =
+        (probeRows (run.1.map (fun r =>
+          (optV ((corrX[r.1 / 8]?).getD none), ((corrSets[r.1 % 8]?).getD []).map optV)))).map toOpt)) = true := by
+  decide
+
+/-- The table discriminates the excluded class: on some dumped scan order the memoising variant
+returns a different column than the engine did. -/
+theorem facts_corr_discriminates :
+    corrRuns.any (fun run =>
+      decide (run.1.map (fun r => r.2.1) ≠
+        (probeMemoRows none (run.1.map (fun r =>
+          (optV ((corrX[r.1 / 8]?).getD none), ((corrSets[r.1 % 8]?).getD []).map optV)))).map toOpt)) = true := by
+  decide
+
+end CorrFacts
 
 /-! ## Known-defect regions -/
 
